@@ -3,7 +3,8 @@ usage: python3-vt tools/run_one.py C19 <task index> [timeout_ms]"""
 import sys
 import time
 import importlib
-sys.path.insert(0, '/verif')
+import os
+sys.path.insert(0, os.path.dirname(os.path.dirname(os.path.abspath(__file__))))
 from pyvc import contract as C, solve   # noqa
 
 prop, idx = sys.argv[1], int(sys.argv[2])
